@@ -1,7 +1,7 @@
 SPECIFICATION Spec
 CONSTANTS
   Chars = {97, 13, 10, 61}
-  MaxLen = 4
+  MaxLen = 3
 INVARIANTS Inside NoLfInside Tiles Terminates GenSized ReqBound
 CONSTRAINT Emit
 CHECK_DEADLOCK FALSE
